@@ -5,14 +5,14 @@
 # harmless/unsound/*.diff are rewrites that break a regenerated fact (lock shape): the check must report them.
 cd /verif
 rc=0
-for d in harmless/*.diff; do
+for d in /verif/harmless/*.diff; do
   props=$(cat "${d%.diff}.props" 2>/dev/null || echo C14)
   for p in $props; do
     out=$(bin/try_patch.sh "$d" "$p" 2>&1 | grep "^VIOLATION")
     if [ -n "$out" ]; then echo "FALSE-ALARM $d $p: $out"; rc=1; else echo "ok (no alarm) $d $p"; fi
   done
 done
-for d in harmless/unsound/*.diff; do
+for d in /verif/harmless/unsound/*.diff; do
   props=$(cat "${d%.diff}.props" 2>/dev/null || echo C14)
   for p in $props; do
     out=$(bin/try_patch.sh "$d" "$p" 2>&1 | grep "^VIOLATION")
